@@ -63,6 +63,7 @@ def run_frame(cfg):
     def h(e):
         n = e.int("n")
         e.assume(n >= past + delay2 - 1)  # at least one row (documented: enough observations)
+        e.len_bound = (n.t, past + delay2 - 1 + 12)  # only used if the code under test calls len() on the series
         r = e.int("r")  # the row looked at: arbitrary
         y = sxl.LInput("y", n)
         X = sxl.LInput("X", n, cols=ncol, is1d=False) if ncol else None
@@ -132,7 +133,7 @@ def run_frame(cfg):
     if not viol:
         okc, _ = replay_frame(cfg, dict(n=past + delay2 + 2), "validate")
         validated = 0 if okc else 1
-    return dict(stats=eng.stats.as_dict(), violations=viol, validated=validated)
+    return dict(stats=eng.stats.as_dict(), violations=viol, validated=validated, notes=sorted(eng.remarks))
 
 
 def _expected(cfg, n, y, X, w):
